@@ -124,6 +124,7 @@ struct Run<'a> {
     lines: Vec<String>,
     events: u64,
     sends: u64,
+    fails: usize,
     fault: Option<String>,
     terminal: Option<String>,
 }
@@ -172,6 +173,7 @@ impl<'a> Run<'a> {
             lines: vec![],
             events: 0,
             sends: 0,
+            fails: 0,
             fault,
             terminal: None,
             c,
@@ -305,9 +307,21 @@ impl<'a> Run<'a> {
 
     fn simple(&mut self, op: &str, p: i64) {
         let (q, peer) = (self.q, self.w.peer(p));
+        // every third failed response is a lying peer's reply of the wrong message kind (a decodable Kademlia
+        // message that does not answer the request): the engine must treat it like a failed response
+        self.fails += (op == "fail") as usize;
+        let wrong_kind = op == "fail" && self.fails % 3 == 2;
         let r = {
             let mut engine = self.engine.borrow_mut();
             catch(|| match op {
+                "fail" if wrong_kind => {
+                    let msg = if self.c.kind() == "find" {
+                        KademliaMessage::GetProviders { key: None, peers: vec![], providers: vec![] }
+                    } else {
+                        KademliaMessage::FindNode { target: vec![], peers: vec![] }
+                    };
+                    engine.register_response(q, peer, msg)
+                }
                 "fail" => engine.register_response_failure(q, peer),
                 "sendok" => engine.register_send_success(q, peer),
                 "sendfail" => engine.register_send_failure(q, peer),
